@@ -256,6 +256,12 @@ func TestC01(t *testing.T) {
 	rapid.Check(t, func(t *rapid.T) {
 		var cl []string
 		serverName := hello.TwoLabels(hello.GenName(t, "server_name", 253))
+		wantSNI := serverName
+		if rapid.IntRange(0, 11).Draw(t, "backend_addressed_by_ip") == 0 {
+			// the client addresses the backend by IP literal (certificate with an IP SAN): RFC 6066
+			// keeps literals out of SNI, so the inner hello has no server_name at all
+			serverName, wantSNI = "192.0.2.77", ""
+		}
 		publicName := hello.MixCase(t, "public_name", hello.TwoLabels(hello.GenName(t, "public_name", 200)))
 		if strings.EqualFold(publicName, serverName) {
 			publicName = "p." + publicName[:min(len(publicName), 190)]
@@ -481,11 +487,11 @@ func TestC01(t *testing.T) {
 				bs = d.BackendSt[len(d.BackendSt)-1]
 			}
 			d.mu.Unlock()
-			if !fc.ECHAccepted() || fc.ServerName() != serverName || !slices.Equal(fc.ALPNProtos(), clientProtos) && !(len(fc.ALPNProtos()) == 0 && len(clientProtos) == 0) {
-				ev.Violation(t, "C01", desc, "round %d: Conn reports accepted=%v ServerName=%q ALPN=%q, client sent %q %q", round, fc.ECHAccepted(), fc.ServerName(), fc.ALPNProtos(), serverName, clientProtos)
+			if !fc.ECHAccepted() || fc.ServerName() != wantSNI || !slices.Equal(fc.ALPNProtos(), clientProtos) && !(len(fc.ALPNProtos()) == 0 && len(clientProtos) == 0) {
+				ev.Violation(t, "C01", desc, "round %d: Conn reports accepted=%v ServerName=%q ALPN=%q, client sent %q %q", round, fc.ECHAccepted(), fc.ServerName(), fc.ALPNProtos(), wantSNI, clientProtos)
 			}
-			if bs.ServerName != serverName || bs.NegotiatedProtocol != wantProto || bs.ECHAccepted {
-				ev.Violation(t, "C01", desc, "round %d: backend observes ServerName=%q ALPN=%q (ECHAccepted=%v), expected %q %q", round, bs.ServerName, bs.NegotiatedProtocol, bs.ECHAccepted, serverName, wantProto)
+			if bs.ServerName != wantSNI || bs.NegotiatedProtocol != wantProto || bs.ECHAccepted {
+				ev.Violation(t, "C01", desc, "round %d: backend observes ServerName=%q ALPN=%q (ECHAccepted=%v), expected %q %q", round, bs.ServerName, bs.NegotiatedProtocol, bs.ECHAccepted, wantSNI, wantProto)
 			}
 			if res.State.NegotiatedProtocol != wantProto {
 				ev.Violation(t, "C01", desc, "round %d: client negotiated %q, expected %q", round, res.State.NegotiatedProtocol, wantProto)
